@@ -42,7 +42,7 @@ P = {
          "RECORDED FINDING (known_findings.json, KNOWN-FINDING on every run): libm 0.2.16's generic software fma is NOT correctly rounded on the alignments d = 14..55 (counterexamples reproduced natively at d = 14, 15, 50..55; e.g. fma(-1.6794348586767305, 1.4885959923267365, 2^53)); those cells are excluded from the claim, d <= 13 and d >= 56 are decided correct. The quick tier runs the special-operand query, a far class, one alignment cell, the witness cell and the MIR condition; the remaining alignment cells (400-1400 s each) are thorough. That f64::mul_add of the std configuration (hardware / C library) is correctly rounded is assumed (the crate itself routes around MinGW); NaN payloads not compared; x,y anchored at [1,2) (four more anchor pairs in thorough); results in the normal range. The MIR diff is a compiler-IR comparison, not a solver query. ",
          "integer rounding oracle per alignment cell; MIR configuration diff"),
  "C12": ("Ground queries: the 19 compiled constants and the 19 FloatConst accessors equal (RN(c), RN(c-RN(c))) computed at check time by mpmath at 400 bits; MAX/MIN valid and bounding every valid x (one query over all valid x); MIN_POSITIVE, NAN != NAN, infinities invalid. to_degrees/to_radians: for every x exactly one multiplication by the mpmath-rounded 180/pi resp. pi/180 whose result is returned unchanged (recording stub).",
-         "The 6u^2 accuracy of to_degrees/to_radians then follows on paper from C04's 5u^2 plus the constant's 2^-107 error; the direct query with the dense constant is attempted only. The constant comparison is constant folding (degenerate solver step) - its value is the independent mpmath oracle. ",
+         "The 6u^2 accuracy of to_degrees/to_radians then follows on paper from C04's 5u^2 plus the constant's 2^-107 error; the direct query on the real multiplier is decided in the thorough tier only for operands with 8-12 free fraction bits per word (the dense 106-bit constant makes wider operands time out). The constant comparison is constant folding (degenerate solver step) - its value is the independent mpmath oracle. ",
          "ground comparison with an independent oracle; recording stub"),
  "C13": ("Decided: powi never panics for ANY x and ANY i32 n (loop fully unwound, multiplications havoc'd); powi(x,0), powi(x,1); powi(x,-n) == powi(x,n).recip() for 0<n<=255 with multiplication and recip as UFs; sign of powi for negative x on a cell (n<=3) and powi(-1, n) at the extreme exponents i32::MIN, i32::MIN+1, i32::MAX (pinned ground, real code); sqrt of every valid negative value invalid, sqrt(0)=0; cbrt(0)=0 and two exact cubes as pinned ground queries.",
          "OUT OF CLAIM: the accuracy constants of sqrt (attempted at M=12..16 in thorough through the soft libm::sqrt), cbrt, hypot and powi - n-th power / cube oracles on symbolic 106-bit values are beyond the back end. A perturbed Newton step is therefore not detected except at the ground points. ",
